@@ -1291,7 +1291,7 @@ def run(ctx):
         required_theorems=["prql_string_value", "prql_quote_roundtrip", "sql_quote_roundtrip", "sql_quote_eq_doubling", "sql_quote_std_roundtrip",
                            "printer_alone_counterexample", "sql_quote_roundtrip_backslash_counterexample",
                            "int_roundtrip", "prql_decimal_value", "radix_value", "int_literal_exact_counterexample", "fstring_concat",
-                           "fstring_fragment_roundtrip", "relation_literal"])
+                           "fstring_fragment_roundtrip", "relation_literal", "sqlite_tz_only_inserts_a_colon", "sqlite_tz_short", "sqlite_tz_idempotent"])
     thorough = ctx.tier == "thorough"
     ctx.rule = ("string values: every string of length <= 3 over the 13 characters ' \" \\ LF - / * ; { } e-acute U+1D11E a (exhaustive, seed-independent; "
                 "quick tier: full spelling set for length <= 2 and the two basic spellings for length 3) plus seeded random Unicode strings of 1-12 "
@@ -1319,6 +1319,27 @@ def run(ctx):
     dialects = br.gen["Dialects"]["summary"]["variants"] if "Dialects" in br.gen else ALL_DIALECTS
     stats = dict(styles=Counter(), fail=Counter(), numbers=Counter(), other=Counter(), fstr_shapes=Counter(), rel_rows=Counter(), grid_ref=Counter(), sqlite_exec=0, dialect_tok=0, bs_mode={})
 
+    # the time-zone suffix of temporal literals on SQLite: the private kernel vs Model.Lit.sqliteDateLiteral on EVERY string of length <= 6
+    # over {+ - : 0 9 a} (exhaustive, 55987 strings) and on the texts of the temporal literal forms
+    alpha = "+-:09a"
+    tz_vals = [""] + ["".join(t) for n in range(1, 7) for t in itertools.product(alpha, repeat=n)]
+    tz_vals += ["16", "16Z", "16:30", "08:30:00", "08:30:00.5", "08:30:00Z", "08:30:00+01", "08:30:00+0100", "08:30:00+01:00", "08:30:00-0530", "2022-12-31",
+                "2022-12-31T16:54:32+0100", "2022-12-31T16:54:32.5+01:00", "2022-12-31T16Z", "é+0100", "+0100é", "'+0100", "x" * 40 + "-0000"]
+    tz_real = vh_batch([{"op": "hook_sqlite_date", "value": v} for v in tz_vals])
+    if tz_real and not (isinstance(tz_real[0], dict) and tz_real[0].get("no_hooks")) and isinstance(tz_real[0], dict) and "sql" in tz_real[0]:
+        tz_mod = drv_batch([f"sqlite_date\t{enc(v)}" for v in tz_vals], shards=vlib.NCPU)
+        ntz = 0
+        for v, r, m in zip(tz_vals, tz_real, tz_mod):
+            ctx.case(("sqlite-tz", v), nontrivial=True)
+            if not isinstance(r, dict) or r.get("sql") != dec(m):
+                ntz += 1
+                ctx.disagreement("sqlite time-zone suffix", f"translate_datetime_literal_with_sqlite_function on {v!r}: real {r!r}, Model.Lit.sqliteDateLiteral {dec(m)!r}",
+                                 {"value": v, "real": r, "model": dec(m)})
+        ctx.count("sqlite-tz:strings", len(tz_vals))
+        ctx.obligation("correspondence: the SQLite time-zone rewrite of temporal literals = Model.Lit.sqliteTz on every string of length <= 6 over {+ - : 0 9 a}",
+                       ntz == 0, f"{len(tz_vals)} strings, {ntz} differ")
+    else:
+        ctx.assumptions.append("the hook for the SQLite temporal literal kernel is not available in this tree: not compared this run")
     # which dialect tokenizers treat backslash as an escape (and which keep \% \_): probed, must equal the recorded set
     probe = vh_batch([{"op": "sqlparse", "dialect": d, "sql": "SELECT 'a\\\\b', '\\%'", "tokens": True} for d in dialects])
     for d, t in zip(dialects, probe):
